@@ -19,8 +19,9 @@ from cutplace import applications, errors
 PROPERTY_ID = "C18"
 RULE = (
     "Complete enumeration through cutplace.applications.main(argv) in this process (SystemExit caught, output "
-    "discarded): CID in {valid, rejected (duplicate field name), missing, a directory} as csv plus {valid, missing} "
-    "as .ods and .xlsx x every list of 0..3 data files over the kinds A accepted, F rejected by a field (last row), "
+    "discarded): CID in {valid, rejected (duplicate field name), missing, a directory} as csv plus {valid, rejected, "
+    "missing} as .ods and .xlsx x every list of 0..3 data files over the kinds A accepted, F rejected by a field "
+    "(last row), "
     "U rejected by IsUnique (last row repeats a key of the same file), S accepted but sharing key values with "
     "every A and S sibling, M missing path, D a directory (the k-th occurrence of a kind is its k-th file, so all "
     "orders of a list name the same files) x --until in {absent, -1, 0, 3 (bad row behind the limit), 4 (bad row "
@@ -45,7 +46,7 @@ ASSUMPTIONS = [
 ]
 EXHAUSTIVE = True
 EXHAUSTIVE_SCOPE = (
-    "10 CID/data-format variants x all 259 lists of 0..3 files over 6 kinds (every order) x 5 --until settings; "
+    "12 CID/data-format variants x all 259 lists of 0..3 files over 6 kinds (every order) x 5 --until settings; "
     "8 unusable argument lists"
 )
 
@@ -57,6 +58,7 @@ VARIANTS = [
     ("csv", "valid", "delimited"), ("csv", "rejected", "delimited"), ("csv", "missing", "delimited"),
     ("csv", "directory", "delimited"), ("ods", "valid", "delimited"), ("ods", "missing", "delimited"),
     ("xlsx", "valid", "delimited"), ("xlsx", "missing", "delimited"),
+    ("ods", "rejected", "delimited"), ("xlsx", "rejected", "delimited"),
     ("csv", "valid", "ods"), ("csv", "valid", "excel"),
 ]
 HEADER_ROW = ["id", "name"]
@@ -306,18 +308,18 @@ def check_multiset(sub, files, variant, multiset, classes, only=None):
             detail = dict(case)
             detail["codes_by_order"] = [["".join(c["files"]), code] for c, code in results]
             _fail(sub, "C18|order|codes-%s|%s|%s" % ("+".join(codes), what, where), detail,
-                     "the same files give different exit codes depending on their order (expected %s): %s" % (
-                         set_text(expected), ", ".join("%s -> %s" % ("".join(c["files"]) or "-", code)
-                                                      for c, code in results)))
+                  "the same files give different exit codes depending on their order (expected %s): %s" % (
+                      set_text(expected),
+                      ", ".join("%s -> %s" % ("".join(c["files"]) or "-", code) for c, code in results)))
             continue
         for case, code in results:
             if code not in expected:
                 _fail(sub, "C18|exit|expected-%s|got-%s|%s|%s" % (set_text(expected), code, what, where), case,
-                         "main(%r) returned %s, expected %s; CID %s, per-file verdicts of cutplace.validate: %s" % (
-                             ["cutplace"] + until_args(until) + [os.path.basename(a) for a in
-                                                                 [cid_path] + files.paths(case["files"], fmt)],
-                             code, set_text(expected), cid_state,
-                             ", ".join("%s=%s" % kv for kv in verdicts) or "(no data files)"))
+                      "main(%r) returned %s, expected %s; CID %s, per-file verdicts of cutplace.validate: %s" % (
+                          ["cutplace"] + until_args(until) + [os.path.basename(a) for a in
+                                                              [cid_path] + files.paths(case["files"], fmt)],
+                          code, set_text(expected), cid_state,
+                          ", ".join("%s=%s" % kv for kv in verdicts) or "(no data files)"))
     return evals, nontrivial
 
 
@@ -344,7 +346,7 @@ def check_broken_arguments(sub, files, name, template, via="main"):
     sub.cls("got:%s" % code)
     if code not in (2, "SystemExit(2)"):
         _fail(sub, "C18|exit|expected-2|got-%s|arguments|%s" % (code, name), case,
-                 "unusable arguments %r: got %s, expected exit code 2" % (template, code))
+              "unusable arguments %r: got %s, expected exit code 2" % (template, code))
 
 
 # -- shards ------------------------------------------------------------------------------
@@ -412,9 +414,9 @@ def compare_with_subprocess(sub, files, variant, order, until):
              sample=case if len(sub.samples) < 1 else None)
     if str(inside) != str(outside):
         _fail(sub, "C18|subprocess|in-process-%s|subprocess-%s|cid-%s-%s|data-%s" % (
-            inside, outside, cid_state, container, fmt), case,
-            "python -m cutplace.applications exits with %s, applications.main returns %s for the same arguments" % (
-                outside, inside))
+         inside, outside, cid_state, container, fmt), case,
+         "python -m cutplace.applications exits with %s, applications.main returns %s for the same arguments" % (
+             outside, inside))
 
 
 def run(ctx):
